@@ -4,6 +4,7 @@ import (
 	"go/ast"
 	"go/token"
 	"go/types"
+	"slices"
 	"strings"
 )
 
@@ -786,6 +787,31 @@ func rulesC02(c *Ctx) {
 			}
 		}
 		c.Pin("updateBatch flush return", flush, 1)
+		// ... and every answer releases its id in the connection's index, not only the last one of its batch: where the
+		// id is struck off the batch's own list, it is struck off ioConn.batches on the same path (an id that stays
+		// there belongs to a batch that has been answered and dropped; a later call reusing the id is matched with it)
+		var dbs []int
+		for _, dc := range ub.AllCalls(ub.Body, false) {
+			if ub.BuiltinName(dc) == "delete" && len(dc.Args) == 2 && ub.IsField(dc.Args[0], batches) {
+				dbs = append(dbs, ug.VertexOf(dc))
+			}
+		}
+		for _, dc := range ub.AllCalls(ub.Body, false) {
+			if ub.BuiltinName(dc) != "delete" || len(dc.Args) != 2 || !ub.IsField(dc.Args[0], unres) {
+				continue
+			}
+			du := ug.VertexOf(dc)
+			ok := false
+			for _, db := range dbs {
+				if ug.Dominates(db, du) {
+					ok = true
+				}
+			}
+			if !ok {
+				ok, _ = ug.MustPass(du, ug.Exits, func(v int) bool { return slices.Contains(dbs, v) })
+			}
+			c.Check(ok, "updateBatch:connection-index-released-with-every-answer", ub, dc, "on every path on which an answered id is deleted from the batch's unresolved list it is deleted from ioConn.batches too")
+		}
 		// the slot a call's response goes into exists: Read records len(responses) as the call's index and then grows
 		// responses by one before the next call is looked at; updateBatch stores the response at that index
 		slots := 0
